@@ -21,7 +21,7 @@ pub fn meta() -> Meta {
         rule: "for packets parsed from reference encodings (arbitrary compression, all 40 types, opaque/empty RDATA) and packets built from parts: every question, record, \
 name and RDATA value x is cloned and converted with into_owned; clone == x and owned == x where PartialEq exists; then the receive buffer is overwritten and dropped and \
 the owned copies are observed (model) and re-serialised: both must equal the original's model and bytes (this also covers TTL / cache-flush / unicast, which == ignores). \
-every record is compared with a copy whose class was changed through the public field (if they compare equal they must hash equally; messages with several OPT records supply records holding OPT data); values made by the public constructors and setters (TXT from text / maps / nothing, NULL, SVCB and HTTPS through their setters) get the same clone / into_owned / hash / bytes checks; NSEC values are checked again after their public window list was reversed by the application (clone, into_owned, hash, bytes). Hash: for equal pairs obtained through different routes (parsed vs built, same record with different TTL / cache-flush, Name vs Name, RData vs RData) hashes must be equal under a fixed \
+every record is compared with a copy whose class was changed through the public field (if they compare equal they must hash equally; messages with several OPT records supply records holding OPT data); values made by the public constructors and setters (TXT from text / maps / nothing, NULL, SVCB and HTTPS through their setters) get the same clone / into_owned / hash / bytes checks; NSEC values are checked again after their public window list was reversed by the application (clone, into_owned, hash, bytes); TXT, OPT, NSEC and SVCB values are compared with a copy built from the same members in reverse order (if the pair compares equal it must hash equally, as RDATA and as record). Hash: for equal pairs obtained through different routes (parsed vs built, same record with different TTL / cache-flush, Name vs Name, RData vs RData) hashes must be equal under a fixed \
 DefaultHasher; InstanceInformation values built by inserting the same addresses/ports/attributes in different orders into separately created sets must be ==, hash equally and \
 be found by HashSet::contains. non-trivial = packet with >= 1 record or question / instance with >= 2 set members; distinct = hash of the case",
         assumptions: &["DefaultHasher::new() is deterministic (fixed keys)"],
@@ -54,6 +54,7 @@ pub fn check_bytes(ctx: &mut Ctx, family: &str, idx: u64, input: &[u8], built_tw
         let all: Vec<&ResourceRecord> = p.answers.iter().chain(p.name_servers.iter()).chain(p.additional_records.iter()).collect();
         let mut problems: Vec<String> = Vec::new();
         let mut nsec_variants = 0u64;
+        let mut reorder_variants = 0u64;
         // clone / into_owned equality where PartialEq exists
         for r in &all {
             let c = (*r).clone();
@@ -122,6 +123,44 @@ pub fn check_bytes(ctx: &mut Ctx, family: &str, idx: u64, input: &[u8], built_tw
                     nsec_variants += 1;
                 }
             }
+            // the same members put together in another order: whatever equality says about the pair, hashing must agree with it
+            {
+                let mut variant: Option<simple_dns::rdata::RData> = None;
+                match &r.rdata {
+                    simple_dns::rdata::RData::TXT(t) if t.verif_strings().len() >= 2 => {
+                        let mut v = simple_dns::rdata::TXT::new();
+                        for sbytes in t.verif_strings().iter().rev() {
+                            if let Ok(cs) = simple_dns::CharacterString::new(sbytes) { v = v.with_char_string(cs.into_owned()); }
+                        }
+                        variant = Some(simple_dns::rdata::RData::TXT(v.into_owned()));
+                    }
+                    simple_dns::rdata::RData::OPT(o) if o.opt_codes.len() >= 2 => {
+                        let mut v = o.clone();
+                        v.opt_codes.reverse();
+                        variant = Some(simple_dns::rdata::RData::OPT(v.into_owned()));
+                    }
+                    simple_dns::rdata::RData::NSEC(n) if n.type_bit_maps.len() >= 2 => {
+                        let mut v = n.clone();
+                        v.type_bit_maps.reverse();
+                        variant = Some(simple_dns::rdata::RData::NSEC(v.into_owned()));
+                    }
+                    simple_dns::rdata::RData::SVCB(sv) if sv.iter_params().count() >= 2 => {
+                        let mut v = simple_dns::rdata::SVCB::new(sv.priority, sv.target.clone());
+                        let ps: Vec<(u16, Vec<u8>)> = sv.iter_params().map(|(k, d)| (k, d.to_vec())).collect();
+                        for (k, d) in ps.into_iter().rev() { let _ = v.set_param(k, d); }
+                        variant = Some(simple_dns::rdata::RData::SVCB(v.into_owned()));
+                    }
+                    _ => {}
+                }
+                if let Some(v) = variant {
+                    let tn = type_name(u16::from(r.rdata.type_code()));
+                    if v == r.rdata && h(&v) != h(&r.rdata) { problems.push(format!("eq-but-hash-differs:rdata-members-reordered:{}", tn)); }
+                    let mut rv = (*r).clone().into_owned();
+                    rv.rdata = v;
+                    if rv == **r && h(&rv) != h(*r) { problems.push(format!("eq-but-hash-differs:record-members-reordered:{}", tn)); }
+                    reorder_variants += 1;
+                }
+            }
             if let simple_dns::rdata::RData::HINFO(x) = &r.rdata {
                 let fl: Vec<u8> = x.cpu.verif_bytes().iter().map(|c| if c.is_ascii_lowercase() { c.to_ascii_uppercase() } else { c.to_ascii_lowercase() }).collect();
                 if let Ok(cs) = simple_dns::CharacterString::new(&fl) {
@@ -143,9 +182,9 @@ pub fn check_bytes(ctx: &mut Ctx, family: &str, idx: u64, input: &[u8], built_tw
         let owned_r: Vec<ResourceRecord<'static>> = all.iter().map(|r| (*r).clone().into_owned()).collect();
         let owned_opt = p.opt().map(|o| o.clone().into_owned());
         let obs_opt = p.opt().map(|o| (o.udp_packet_size, o.version, o.opt_codes.iter().map(|c| (c.code, c.data.to_vec())).collect::<Vec<_>>()));
-        Some((problems, obs_q, obs_r, bytes0, bytes0c, owned_q, owned_r, owned_opt, obs_opt, nsec_variants))
+        Some((problems, obs_q, obs_r, bytes0, bytes0c, owned_q, owned_r, owned_opt, obs_opt, nsec_variants, reorder_variants))
     });
-    let (problems, obs_q, obs_r, bytes0, bytes0c, owned_q, owned_r, owned_opt, obs_opt, nsec_variants) = match r {
+    let (problems, obs_q, obs_r, bytes0, bytes0c, owned_q, owned_r, owned_opt, obs_opt, nsec_variants, reorder_variants) = match r {
         Err(pn) => {
             ctx.panic_violation("clone/into_owned/hash", &pn, case());
             return;
@@ -159,6 +198,7 @@ pub fn check_bytes(ctx: &mut Ctx, family: &str, idx: u64, input: &[u8], built_tw
     ctx.case_bytes(!obs_q.is_empty() || !obs_r.is_empty(), input);
     ctx.add("records_checked", obs_r.len() as u64);
     ctx.add("nsec_values_with_reordered_windows", nsec_variants);
+    ctx.add("values_compared_with_a_copy_whose_members_are_reordered", reorder_variants);
     for pr in problems {
         ctx.violation("owned-equals-original", &pr, format!("clone/into_owned/hash disagreement: {}", pr), case());
     }
